@@ -1,8 +1,78 @@
-//! C02 correspondence streams (stub).
+//! C02 / C01: the emitted-code table, produced by running the real `Emitter::encode_op` (and the prologue/epilogue writers).
+//! `c02.table` prints one line per (encoding, operand bytes): the emitted bytes with host pointers replaced by tokens
+//! (MEM, RD8, WR8, RD16, WR16, PUSH16) so that the output is independent of ASLR.  tools/gen_emit.py turns it into Lean.
+use crate::decoder::decode;
+use crate::emitter::Emitter;
+use crate::mem::MemoryAreas;
 use crate::util::Opts;
 use std::io::Write;
 
-pub fn run(sub: &str, _opts: &Opts, _w: &mut dyn Write) {
-  eprintln!("stream c02.{} not implemented", sub);
-  std::process::exit(2);
+const MEM_SENTINEL: u64 = 0x1122_3344_5566_7788;
+
+fn tokens() -> Vec<(u64, &'static str)> {
+  vec![
+    (MEM_SENTINEL, "MEM"),
+    (crate::mem::memory_read_byte as u64, "RD8"),
+    (crate::mem::memory_write_byte as u64, "WR8"),
+    (crate::mem::memory_read_word as u64, "RD16"),
+    (crate::mem::memory_write_word as u64, "WR16"),
+    (crate::mem::memory_push_word as u64, "PUSH16"),
+  ]
+}
+
+/// bytes as space-separated hex, 8-byte host pointers replaced by their token
+pub fn tokenize(bytes: &[u8]) -> String {
+  let toks = tokens();
+  let mut out: Vec<String> = Vec::new();
+  let mut i = 0;
+  while i < bytes.len() {
+    let mut hit = None;
+    if i + 8 <= bytes.len() {
+      let mut v = 0u64;
+      for k in 0..8 { v |= (bytes[i + k] as u64) << (8 * k); }
+      for (p, name) in toks.iter() { if *p == v { hit = Some(*name); } }
+    }
+    match hit { Some(n) => { out.push(n.to_string()); i += 8; }, None => { out.push(format!("{:02x}", bytes[i])); i += 1; } }
+  }
+  out.join(" ")
+}
+
+pub fn emit(b0: u8, b1: u8, b2: u8) -> Option<(Vec<u8>, usize, usize)> {
+  let (op, len, clocks) = decode(&[b0, b1, b2]);
+  if let crate::decoder::ops::Op::Invalid(_) = op { return None; }
+  let e = Emitter::new(MEM_SENTINEL as *const MemoryAreas);
+  let mut buf = vec![0u8; 512];
+  let n = e.encode_op(op, len, &mut buf);
+  buf.truncate(n);
+  Some((buf, len, clocks))
+}
+
+pub fn run(sub: &str, _opts: &Opts, w: &mut dyn Write) {
+  if sub == "table" {
+    let mut buf = vec![0u8; 256];
+    let n = Emitter::write_prelude_function(&mut buf);
+    writeln!(w, "prologue {}", tokenize(&buf[..n])).unwrap();
+    let n = Emitter::write_epilogue_function(&mut buf);
+    writeln!(w, "epilogue {}", tokenize(&buf[..n])).unwrap();
+    let e = Emitter::new(MEM_SENTINEL as *const MemoryAreas);
+    let n = e.encode_epilogue(&mut buf);
+    writeln!(w, "blockend {}", tokenize(&buf[..n])).unwrap();
+    for b0 in 0..=255u8 {
+      if b0 == 0xcb {
+        for b1 in 0..=255u8 { if let Some((bytes, len, clocks)) = emit(0xcb, b1, 0) { writeln!(w, "op cb {:02x} 00 len={} clocks={} : {}", b1, len, clocks, tokenize(&bytes)).unwrap(); } }
+        continue;
+      }
+      let len = match emit(b0, 0, 0) { Some((_, l, _)) => l, None => continue };
+      // every value of an 8-bit operand; a boundary sample of 16-bit operands
+      let samples: Vec<(u8, u8)> = match len {
+        1 => vec![(0, 0)],
+        2 => (0..=255u8).map(|v| (v, 0)).collect(),
+        _ => vec![(0x00, 0x00), (0x34, 0x12), (0xff, 0xff), (0x00, 0x80), (0xff, 0x7f), (0x01, 0x00), (0x00, 0x01), (0xfe, 0xff), (0x00, 0x40), (0xff, 0x3f), (0x50, 0x01), (0xcd, 0xab)],
+      };
+      for (b1, b2) in samples {
+        let (bytes, len, clocks) = emit(b0, b1, b2).unwrap();
+        writeln!(w, "op {:02x} {:02x} {:02x} len={} clocks={} : {}", b0, b1, b2, len, clocks, tokenize(&bytes)).unwrap();
+      }
+    }
+  }
 }
